@@ -185,7 +185,18 @@ func runC08(r *ev.Run) {
 		// whichever validator the index denotes: one of the three hits the account that is debonding
 		cw4.prefixes = append(cw4.prefixes, cw4.L("reclaim(a0<-e0,100sh)", ev), cw4.L("reclaim(e1<-e1,333sh)", ev))
 	}
-	worlds := []*c08world{cw0, cw1, cw2, cw3, cw4}
+	// sixth: the runtime world at consensus feature version 26.1 (runtime owner index, 26.1 admission rules);
+	// menu: everything that touches the registry or the runtime
+	cw5 := newC08World(r, chain.GenesisOptions{Runtime: true, EpochInterval: 1, NodeExpiration: 12, Feature261: true})
+	cw5.menu = append(append([]txT{}, cw5.w.registryTxs()...), cw5.w.runtimeTxs()...)
+	cw5.prefixes = [][]letter{
+		{},
+		cw5.L("empty", "empty", "empty"), // committee elected
+		cw5.L("runtime-update(e0,->runtime governance)"),
+		cw5.L("runtime-new(e1)"),
+		cw5.L("runtime-update(e0,owner->e1)"),
+	}
+	worlds := []*c08world{cw0, cw1, cw2, cw3, cw4, cw5}
 	L := cw0.L
 	cw0.prefixes = [][]letter{
 		{},
